@@ -282,6 +282,10 @@ def render(f):
         return f"{render(f[1])}/({render(f[2])})"
     if k == "coef":
         return f"{f[1]}*{render(f[2])}"
+    if k == "numsqrt":
+        return f"sqrt({f[1]})"
+    if k == "numpow":
+        return f"{f[1]}**({f[2]})"
     raise ValueError(f)
 
 
@@ -295,32 +299,41 @@ def _exp_value(p):
 
 
 def algebra(f):
-    """Evaluate the tree through Unit operator algebra."""
+    """Evaluate the tree through Unit operator algebra -> (numeric coefficient, Unit)."""
     k = f[0]
     if k == "atom":
-        return Unit(f[1])
+        return 1.0, Unit(f[1])
     if k == "pow":
         p = _exp_value(f[2])
-        return Unit(f[1]) ** (float(p) if "." in f[2] else p)
+        return 1.0, Unit(f[1]) ** (float(p) if "." in f[2] else p)
     if k == "sqrt":
-        return Unit(f[1]) ** 0.5
+        return 1.0, Unit(f[1]) ** 0.5
     if k == "mul":
-        return algebra(f[1]) * algebra(f[2])
+        (c1, u1), (c2, u2) = algebra(f[1]), algebra(f[2])
+        return c1 * c2, u1 * u2
     if k in ("div", "div_group"):
-        return algebra(f[1]) / algebra(f[2])
+        (c1, u1), (c2, u2) = algebra(f[1]), algebra(f[2])
+        return c1 / c2, u1 / u2
     if k == "group_pow":
-        return algebra(f[1]) ** _exp_value(f[2])
+        c, u = algebra(f[1])
+        p = _exp_value(f[2])
+        return c ** float(p), u**p
     if k == "group_sqrt":
-        return algebra(f[1]) ** 0.5
+        c, u = algebra(f[1])
+        return c**0.5, u**0.5
     if k == "coef":
-        q = float(f[1]) * algebra(f[2])  # number * Unit -> quantity
-        return q
+        c, u = algebra(f[2])
+        return float(f[1]) * c, u
+    if k == "numsqrt":
+        return float(f[1]) ** 0.5, Unit()
+    if k == "numpow":
+        return float(f[1]) ** float(_exp_value(f[2])), Unit()
     raise ValueError(f)
 
 
 def shape_of(f):
     k = f[0]
-    if k in ("atom", "pow", "sqrt"):
+    if k in ("atom", "pow", "sqrt", "numsqrt", "numpow"):
         return k
     if k == "coef":
         return "coef." + shape_of(f[2])
@@ -352,6 +365,16 @@ def compound_cases(tier):
         yield ("group_sqrt", ("div", a, b))
         for c in COEFS[1:]:
             yield ("coef", c, ("div", a, b))
+            yield ("group_sqrt", ("coef", c, ("mul", a, b)))
+    # numeric factors under a root or power (the coefficient's exponent must be applied to it too)
+    for a in full:
+        for c in COEFS[1:] + ["8", "3"]:
+            yield ("group_sqrt", ("coef", c, a))
+            yield ("mul", ("numsqrt", c), a)
+            yield ("div", a, ("numsqrt", c))
+            for p in ("1/2", "1/3", "-1", "2", "0.5", "3/2"):
+                yield ("group_pow", ("coef", c, a), p)
+                yield ("mul", ("numpow", c, p), a)
 
 
 _REFTAB = None
@@ -380,11 +403,8 @@ def eval_compound(ctx, f):
     except Exception as e:  # noqa: BLE001
         got = ("raise", type(e).__name__)
     try:
-        a = algebra(f)
-        if hasattr(a, "d"):  # coefficient * unit -> quantity: fold the number into the scale
-            alg = ("ok", float(a.d) * float(a.units.base_value), dim_of(a.units.dimensions))
-        else:
-            alg = ("ok", float(a.base_value), dim_of(a.dimensions))
+        c, a = algebra(f)  # numeric coefficient kept apart, folded into the scale here
+        alg = ("ok", c * float(a.base_value), dim_of(a.dimensions))
     except Exception as e:  # noqa: BLE001
         alg = ("raise", type(e).__name__)
     shape = shape_of(f)
